@@ -101,6 +101,19 @@ def _owner_of(tag, events, idx):
                 j -= 1
             return base or "C04"
         if what in ("Hang", "DrvExit"):
+            if what == "DrvExit":
+                # the driver ended although the transport was never touched (no fault, no Unbind, handles alive): whatever made
+                # it leave disturbed every other operation - C01's second sentence as much as C04's business
+                j = idx - 2
+                quiet = True
+                while j >= 0 and events[j].get("ev") != "Reset":
+                    x = events[j]
+                    if x.get("ev") in ("SrvClose", "SrvGarbage", "SrvBadDone", "DropHandles") or (x.get("ev") == "DrvOp" and (x.get("k") == "unbind" or not x.get("ok", True))):
+                        quiet = False
+                        break
+                    j -= 1
+                if quiet:
+                    return ("C04", "C01")
             return "C04"
         # an event no behaviour of the model explains: after a transport fault or driver exit it is about
         # termination/fail-fast (C04), a timeout return is about timeouts (C12), otherwise about routing (C01)
